@@ -112,6 +112,8 @@ func checkC06(w *World, r *Report) {
 	r.Rule("R06.3", "client accepts only 200 / 101", 2)
 	r.Rule("R06.4", "single buffered reader owns the inbound stream", 6)
 	r.Rule("R06.5", "every index / slice expression on peer-supplied text is proven in bounds (linear-inequality entailment over dominating guards)", 2)
+	r.Rule("R06.8", "a handshake that fails without an answer is answered by a close: AcceptConnection closes the carrier on every failing return", 1)
+	ruleAcceptFailureClosesCarrier(w, r, "R06.8")
 	r.Rule("R06.7", "every explicit panic of the handshake code guards a write to an in-memory buffer, never to a writer that can be the peer's connection", 1)
 	c06NoPanicOnPeerWriteFault(w, r)
 	r.Rule("R06.6", "no header write into the nil map of a freshly built message object (it would panic on the accept path)", 1)
